@@ -178,7 +178,7 @@ def can_grow(d):
     return len(d.get("events", [])) + len(d.get("odes", [])) >= 2
 
 
-def build_grown(d, x, t, theta, lambda_backend=True):
+def build_grown(d, x, t, theta, lambda_backend=True, interleave_other=False):
     """the same model reached from a NON-initial state: built without its last process (last explicit ODE term if
     there is one, else the last event), everything evaluated once, then the last process added with add_ode / add_event"""
     import copy
@@ -196,6 +196,11 @@ def build_grown(d, x, t, theta, lambda_backend=True):
         kind, obj = make_event_obj(pg, last[1], last[1].get("route", "event"))
         m.add_event(obj)
         order = order + [len(d["events"]) - 1]
+    if interleave_other:
+        # ... and, before the changed model is asked anything, another freshly built model compiles and evaluates every one
+        # of its functions (recompilation state shared between model objects would mark the changed model as up to date)
+        o, _ = build(d1, lambda_backend=lambda_backend)
+        touch(o, x, t, theta)
     return m, order
 
 
